@@ -31,7 +31,7 @@ def run(tier, seed):
               EX.ExcelModel.compile_cell, EX.ExcelModel.finish)
     ck.assume('the workbook is a real .xlsx file written by the harness with openpyxl (two sheets referring to each other, whole-column and whole-row references, a defined name, a two-cell array formula, cells reading its spilled cell alone or inside a larger rectangle, and a second workbook whose sheet has the same title but fewer used rows); two constants and the set of requested outputs are boolean selectors; every path loads the file twice (fully, and from the chosen outputs) and calculates natively',
               'completing and finishing the partial model again must leave its node set and its results unchanged')
-    ck.out_of_scope('output sets other than the listed ones (20 single outputs, 15 chosen combinations, and in the thorough tier a seeded sample up to 256 sets)', 'whole-column references beyond the few listed paths (the library assembles all 1048576 cells of the column: 10 s and several GB per model)', 'workbooks other than the harness template',
+    ck.out_of_scope('output sets other than the listed ones (20 single outputs, 15 chosen combinations, and in the thorough tier a seeded sample up to 128 sets)', 'whole-column references beyond the few listed paths (the library assembles all 1048576 cells of the column: 10 s and several GB per model)', 'workbooks other than the harness template',
                     'symbolic contents (openpyxl / schedula cannot carry symbolic values)')
     ck.check_known_witness('C15-defined-name-as-requested-output', NAME_WITNESS)
     quick = tier == 'quick'
@@ -44,7 +44,7 @@ def run(tier, seed):
     if not quick:
         import random
         rnd = random.Random(seed)
-        while len(masks) < 256:
+        while len(masks) < 128:
             m = rnd.getrandbits(nout + 1)
             if m & (ORDER - 1) and m not in masks:
                 masks.append(m)
